@@ -183,8 +183,11 @@ func (c *c09Case) joinAll() {
 	c.s.Note("JR")
 	c.joined = true
 	c.ja = "ok"
-	st := c.tp.State()
-	if st["TaskQueueSize"].(int) != 0 || len(st["TotalWorkerThreads"].([]uint64)) != 0 {
+	// the snapshot JoinAll left its loop with (tasks may be added concurrently with the return)
+	c.s.mu.Lock()
+	js := c.s.lastWS[c.s.labels[c09Goid()]]
+	c.s.mu.Unlock()
+	if js[0] != 0 || js[2] != 0 {
 		c.ja = "bad"
 	}
 	for _, id := range before {
